@@ -592,18 +592,24 @@ func pbGetQueryDeserialize(in *pbx.GetQuery) *MsgGetQuery {
 
 	if desc := in.GetDesc(); desc != nil {
 		msg.Desc = &MsgGetOpts{
+			User:            desc.GetUser(),
+			Topic:           desc.GetTopic(),
 			IfModifiedSince: int64ToTime(desc.GetIfModifiedSince()),
 			Limit:           int(desc.GetLimit()),
 		}
 	}
 	if sub := in.GetSub(); sub != nil {
 		msg.Sub = &MsgGetOpts{
+			User:            sub.GetUser(),
+			Topic:           sub.GetTopic(),
 			IfModifiedSince: int64ToTime(sub.GetIfModifiedSince()),
 			Limit:           int(sub.GetLimit()),
 		}
 	}
 	if data := in.GetData(); data != nil {
 		msg.Data = &MsgGetOpts{
+			User:     data.GetUser(),
+			Topic:    data.GetTopic(),
 			BeforeId: int(data.GetBeforeId()),
 			SinceId:  int(data.GetSinceId()),
 			Limit:    int(data.GetLimit()),
